@@ -787,7 +787,7 @@ spec fn con_violated(ts: Seq<TypeNode>, a: TyID, c: Constraint) -> bool {
         Constraint::Mul(b) => !(ty_of(ts, b) is Unknown) && !arith_heads(ta, ty_of(ts, b)),
         Constraint::DivTop(b) => !(ty_of(ts, b) is Unknown) && !div_heads(ta, ty_of(ts, b)),
         Constraint::DivBot(b) => !(ty_of(ts, b) is Unknown) && !div_heads(ty_of(ts, b), ta),
-        Constraint::DivRes(_) => false,
+        Constraint::DivRes(x) => is_num(ty_of(ts, x)) && !(ta is Float),
         Constraint::Equ(b) => !(ty_of(ts, b) is Unknown) && !shape0_eq(ta, ty_of(ts, b)),
         Constraint::Cmp(b) => !(ty_of(ts, b) is Unknown) && !cmp_heads(ta, ty_of(ts, b)),
         Constraint::CmpEqu(b) => !(ty_of(ts, b) is Unknown) && (!shape0_eq(ta, ty_of(ts, b)) || !cmp_heads(ta, ty_of(ts, b))),
@@ -2082,12 +2082,44 @@ impl TypeChecker {
 //@ end
 //@ fn sylt-compiler/src/typechecker.rs div_res
 //@   in TypeChecker
-//@   mode assumed
+//@   props C02 C03 C07
+//@   attr #[verifier::exec_allows_no_decreases_clause]
+//@   attr #[verifier::loop_isolation(false)]
 //@   ret r
+//@   rewrite guard
+//@- (Type::Tuple(a), Type::Tuple(b)) if a.len() == b.len() => {
+//@   endrewrite
+//@   rewrite equivalent
+//@- let tys = xs.iter().map(|_| self.push_type(Type::Unknown)).collect();
+//@+ let mut tys: Vec<TyID> = Vec::new(); for _x in xs.iter() { tys.push(self.push_type(Type::Unknown)); }
+//@   why closure capturing &mut self + collect; map/collect into a Vec pushes one result per element, in order
+//@   endrewrite
 //@   spec
-        requires old(self).inv2(), old(self).valid(a), old(self).valid(b),
-        ensures final(self).inv2(), final(self).grows(old(self)),
+        requires old(self).inv2(), old(self).valid(a), old(self).valid(b), //# C07 div_res.pre.ids_in_range
+        ensures final(self).inv2(), final(self).grows(old(self)), //# C02,C07 div_res.keeps_invariant
+            is_num(ty_of(old(self).types@, a)) && !(ty_of(old(self).types@, b) is Unknown) && !(ty_of(old(self).types@, b) is Float) ==> r is Err, //# C03 div_res.number_divided_gives_a_float
 //@   endspec
+//@   ghost entry
+        proof { lemma_heads_refl(self.types@); }
+//@   endghost
+//@   ghost before-loop 1
+                let ghost n1 = self.types@.len() as int;
+//@   endghost
+//@   loop 1 binder it
+                    invariant
+                        self.inv2(), self.grows(old(self)), self.valid(a), self.valid(b), //# C02,C07 div_res.loop1.aux1
+                        n1 <= self.types@.len(), forall|k: int| 0 <= k < tys@.len() ==> (#[trigger] tys@[k]).0 < self.types@.len(), //# C07 div_res.loop1.aux2
+//@   endloop
+//@   ghost before-loop 2
+                let ghost n2 = self.types@.len(); let ghost xs2 = a@; let ghost ys2 = b@;
+//@   endghost
+//@   loop 2 binder it
+                    invariant
+                        self.inv2(), self.grows(old(self)), self.types@.len() >= n2, //# C02,C07 div_res.loop2.aux1
+                        xs2.len() == ys2.len(), it.seq().len() == xs2.len(), //# - div_res.loop2.aux2
+                        forall|i: int| 0 <= i < xs2.len() ==> *(#[trigger] it.seq()[i]).0 == xs2[i] && *it.seq()[i].1 == ys2[i], //# - div_res.loop2.aux3
+                        forall|k: int| 0 <= k < xs2.len() ==> (#[trigger] xs2[k]).0 < n2 && (#[trigger] ys2[k]).0 < n2, //# C07 div_res.loop2.aux4
+//@   endloop
 //@ end
 //@ fn sylt-compiler/src/typechecker.rs equ
 //@   in TypeChecker
